@@ -435,6 +435,9 @@ def base_cfg_of(scn):
     return 'config'
 
 
+tier_all_reruns = [False]       # thorough: every faulted case is followed by a re-run
+
+
 def run_case(scn, faults, scratch, b0=None, log=None):
     """Restore the world, run the command once per fault in `faults` (each a fault plan or None),
     then observe.  Returns (violations, info)."""
@@ -505,7 +508,10 @@ def run_case(scn, faults, scratch, b0=None, log=None):
         elif own is not None and emptied(own) and any(faults):
             add('I2', 'the faulted run itself (%r) reported every row Unknown while the rules are on disk (state: %s)'
                 % (faults, info['shape']))
-    if not same_classification(o1, b0):
+    # the user runs the command again after it failed - always when the budget no longer classifies as before, and for half of
+    # the other cases too (a second run over whatever the first one left behind must not lose anything either)
+    rerun_anyway = any(faults) and (tier_all_reruns[0] or util.digest(faults)[0] in '01234567')
+    if not same_classification(o1, b0) or rerun_anyway:
         r2 = run_cmd(root, ctlp, scn['cmd'], None)
         info['procs'] += 1
         s2 = util.snapshot(root)
@@ -585,6 +591,7 @@ def fault_plans(trace, rng, tier):
 
 
 def run_one(seed, i, tier, scratch):
+    tier_all_reruns[0] = tier == 'thorough'
     rng = util.rng_for(seed, ID, i)
     scn = gen_scenario(rng, i)
     log = [['schedule', util.digest(scn)]]
@@ -694,7 +701,7 @@ def run_one(seed, i, tier, scratch):
             for v in vs:
                 if v['invariant'] == 'I3' and not check_i3:
                     continue
-                v['schedule'] = {'property': ID, 'seed': seed, 'run': i, 'scenario': scn, 'faults': faults}
+                v['schedule'] = {'property': ID, 'seed': seed, 'run': i, 'scenario': scn, 'faults': faults, 'always_rerun': tier_all_reruns[0]}
                 v['digest'] = cdig
                 violations.append(v)
             if len(samples) < 1 and f0 is not None and f0['kind'] == 'crash' and info['fired'][0]:
@@ -717,6 +724,7 @@ def replay(schedule, scratch):
     import shutil
     scn = schedule['scenario']
     case_log = []
+    tier_all_reruns[0] = bool(schedule.get('always_rerun'))
     try:
         vs, info, _ = run_case(scn, schedule['faults'], scratch, b0=None, log=case_log)
     finally:
